@@ -18,8 +18,8 @@ for d in sorted(glob.glob(os.path.join(VERIF, 'seeded', '*'))):
         meta = json.load(open(os.path.join(d, 'meta.json')))
     except Exception:
         continue
-    if os.path.exists(os.path.join(d, 'MISSED')):
-        continue  # recorded as not detected (see DESIGN.md): kept for reference, not a canary
+    if os.path.exists(os.path.join(d, 'MISSED')) or os.path.exists(os.path.join(d, 'ALARMS')):
+        continue  # recorded as not detected / as a residual false alarm (see DESIGN.md): kept for reference, not a canary
     if meta.get('kind') == 'harmless':
         # a behaviour-preserving refactoring written by a sub-agent: no alarm allowed
         corpus.append({'id': 'seeded-' + os.path.basename(d), 'prop': meta['property'], 'patch': os.path.join(d, 'patch.diff'), 'harmless': 'patch'})
